@@ -879,6 +879,11 @@ def watcher_scenarios(seed, tier):
     for k in (3, 10, 40):
         add([{"op": "pause"}, W(dirs[k % 4] + "a.toml")] + [{"op": "sleep"}] * k + [{"op": "cancel"}])
     add([W(dirs[1] + "b.toml"), {"op": "pause"}, W(dirs[1] + "c.toml"), W(dirs[2] + "c.toml")] + [{"op": "sleep"}] * 10 + [{"op": "cancel"}, {"op": "resume"}])
+    # shut down while the watcher is still setting itself up, and with one of the four directories absent
+    for k in (0, 0, 1, 3):
+        scs.append({"id": len(scs) + 1, "ops": [{"op": "sleep"}] * k + [{"op": "cancel"}], "early": True})
+    for d in (dirs[2], dirs[0]):
+        scs.append({"id": len(scs) + 1, "ops": [W(dirs[1] + "a.toml"), W(dirs[3] + "b.toml"), {"op": "cancel"}], "missing": d.rstrip("/")})
     P = lambda f: {"op": "pwrite", "file": f}
     add([P(dirs[1] + "a.toml")] * 4)                                  # one file edited again and again, each edit noticed before the next
     add([P(dirs[0] + "UPPER.TOML"), {"op": "sleep"}, P(dirs[0] + "UPPER.TOML"), W(dirs[0] + "notes.txt"), P(dirs[0] + "UPPER.TOML")])
@@ -1283,6 +1288,17 @@ def c16(pid, tier, replay):
     for b in devdrivers.random_keys(vlib.seed(), "quick"):
         for i in range(0, 16 if tier == "quick" else len(b["walks"]), 8):
             iso_batches.append({"cfg": b["cfg"], "cfgmode": "literal", "sub": "", "walks": b["walks"][i:i + 8]})
+    # devices that all hold notes when their streams end at the same moment (a configuration reload ends every device at
+    # once): the clean-ups run side by side
+    if iso_batches:
+        import copy as _cp
+        b0 = _cp.deepcopy(iso_batches[0])
+        best = max(range(len(b0["cfg"]["maps"])), key=lambda i: len(b0["cfg"]["maps"][i]["keys"]))
+        b0["cfg"]["dMap"] = best + 1
+        nk = sorted(k for k in b0["cfg"]["maps"][best]["keys"] if k not in b0["cfg"]["actions"])[:12]
+        held = [[{"ev": "press", "k": nk[(i + j) % len(nk)]} for j in range(3)] + [{"ev": "disconnect"}] for i in range(8)]
+        iso_batches.append({"cfg": b0["cfg"], "cfgmode": "literal", "sub": b0.get("sub", ""), "walks": held})
+        iso_batches.append({"cfg": b0["cfg"], "cfgmode": "literal", "sub": b0.get("sub", ""), "walks": held[::-1]})
     bp = scr.fresh("iso") + ".json"
     with open(bp, "w") as f:
         json.dump(iso_batches, f)
@@ -1290,7 +1306,7 @@ def c16(pid, tier, replay):
     ri = subprocess.run([scr.build(race=True), "isolation", bp, t2], stdout=subprocess.PIPE, stderr=subprocess.PIPE, text=True, timeout=1800,
                         env=dict(os.environ, GORACE="halt_on_error=0 log_path=%s" % racelog))
     crash_lines = []
-    if ri.returncode != 0:
+    if ri.returncode not in (0, 66):      # 66 = the race detector's exit code: its reports are in the race log
         # Go aborts the process on unsynchronised map access ("fatal error: concurrent map writes"): with HIDI frames
         # on the stack this is the race itself, observed
         err = ri.stderr
